@@ -1,6 +1,5 @@
 use std::rc::Rc;
 pub type Coin = BigNum;
-macro_rules! opaque_types { ($($n:ident),* $(,)?) => { verus!{ $( #[verifier::external_body] pub struct $n { _p: core::marker::PhantomData<u8> } )* } } }
 opaque_types!(Credential, Anchor, Ed25519KeyHash, DRep, StakeDelegation, PoolRegistration, PoolRetirement, GenesisKeyDelegation,
     MoveInstantaneousRewardsCert, CommitteeHotAuth, CommitteeColdResign, DRepUpdate, StakeAndVoteDelegation, VoteDelegation,
     ScriptWitnessType, RewardAddress, CborSetType, DedupIndex, GovernanceAction, MultiAsset,
